@@ -1,12 +1,64 @@
 import Lean.Data.Json
+import O2P.Model.Time
+/-!
+Model driver: one JSON request per line on stdin, one JSON reply per line on stdout.
+Numbers that may exceed 2^53 travel as decimal strings.
+-/
 open Lean
+
+def getStr (j : Json) (k : String) : Except String String := do
+  match j.getObjVal? k with
+  | .ok (.str s) => pure s
+  | _ => throw s!"missing string field {k}"
+
+def getNatS (j : Json) (k : String) : Except String Nat := do
+  let s ← getStr j k
+  match s.toNat? with
+  | some n => pure n
+  | none => throw s!"field {k} is not a natural number"
+
+def natS (n : Nat) : Json := Json.str (toString n)
+
+namespace TimeOps
+open O2P.Time
+
+def opFromNanos (j : Json) : Except String Json := do
+  let n ← getNatS j "n"
+  let x0 := fl n 1
+  let x1 := fl x0.num (x0.den * O2P.Gen.nanoDivisor)
+  let p := fromNanosParts n
+  pure <| Json.mkObj [("s", Json.str (String.ofList (O2P.Time.fromNanos n))), ("secs", natS p.1), ("us", natS p.2),
+    ("x1num", natS x1.num), ("x1den", natS x1.den), ("micros", natS (fromNanosMicros n))]
+
+def opToNanos (j : Json) : Except String Json := do
+  let s ← getStr j "s"
+  pure <| Json.mkObj [("n", match O2P.Time.toNanos s.toList with
+    | some n => natS n
+    | none => Json.null)]
+
+def opFormatMicros (j : Json) : Except String Json := do
+  let k ← getNatS j "k"
+  pure <| Json.mkObj [("s", Json.str (String.ofList (O2P.Time.formatMicros k)))]
+
+end TimeOps
+
+def handle (j : Json) : Except String Json := do
+  let op ← getStr j "op"
+  match op with
+  | "time.fromNanos" => TimeOps.opFromNanos j
+  | "time.toNanos" => TimeOps.opToNanos j
+  | "time.formatMicros" => TimeOps.opFormatMicros j
+  | _ => throw s!"unknown op {op}"
 
 partial def loop (h : IO.FS.Stream) (out : IO.FS.Stream) : IO Unit := do
   let line ← h.getLine
   if line.isEmpty then return ()
-  match Json.parse line with
-  | .ok j => out.putStrLn (Json.compress (Json.mkObj [("echo", j)]))
-  | .error e => out.putStrLn (Json.compress (Json.mkObj [("error", Json.str e)]))
+  let reply := match Json.parse line with
+    | .ok j => match handle j with
+      | .ok r => r
+      | .error e => Json.mkObj [("error", Json.str e)]
+    | .error e => Json.mkObj [("error", Json.str s!"bad json: {e}")]
+  out.putStrLn reply.compress
   loop h out
 
 def main : IO Unit := do
